@@ -20,6 +20,7 @@ fn main() {
     }
     let rc = match args[1].as_str() {
         "c05_lost_wakeup" => c05_lost_wakeup(args.get(2).map(|s| s.as_str()).unwrap_or("")),
+        "c04_frame_lost" => c04_frame_lost(args.get(2).map(|s| s == "no_backpressure").unwrap_or(false)),
         "c08_goaway" => c08_goaway(
             args.get(2).and_then(|s| s.parse().ok()).unwrap_or(0),
             args.get(3).and_then(|s| s.parse().ok()).unwrap_or(0),
@@ -191,4 +192,52 @@ fn c08_goaway(accepted: u64, n: usize) -> i32 {
     }
     std::mem::forget(conn);
     rc
+}
+
+
+/// Server: the client's control stream carries SETTINGS then GOAWAY(0) while the transport withholds the credit to
+/// open the server's grease stream (poll_open_send Pending) for two polls. Every control frame must still be acted
+/// upon: once the GOAWAY has been processed and no request is in flight, accept reports 'no more requests'
+/// (Ready(Ok(None))). Reproduces (exit 1) if the accept call is still Pending after the credit came back: the GOAWAY
+/// was taken from the stream and dropped.
+fn c04_frame_lost(no_backpressure: bool) -> i32 {
+    let mock = Mock::new(true);
+    let mut conn: h3::server::Connection<Mock, Bytes> =
+        drive(h3::server::builder().build(mock.clone()), 10).expect("build completes").expect("build ok");
+    {
+        let mut w = mock.world.lock().unwrap();
+        w.open_send.clear();
+        if !no_backpressure {
+            w.open_send.push_back(Ready::Pending);
+            w.open_send.push_back(Ready::Pending);
+        }
+    }
+    // client-initiated unidirectional stream 2: type 0x00 (control), SETTINGS (empty), GOAWAY(0)
+    mock.push_uni(2, vec![RecvEvent::Data(vec![0x00, 0x04, 0x00]), RecvEvent::Data(vec![0x07, 0x01, 0x00])]);
+    let (_c, waker) = counting_waker();
+    let mut cx = Context::from_waker(&waker);
+    let mut last = String::new();
+    for i in 0..6 {
+        let r = conn.poll_accept_request_stream(&mut cx);
+        last = match &r {
+            Poll::Pending => "Pending".to_string(),
+            Poll::Ready(Ok(None)) => "Ready(Ok(None))".to_string(),
+            Poll::Ready(Ok(Some(_))) => "Ready(Ok(Some))".to_string(),
+            Poll::Ready(Err(e)) => format!("Ready(Err({:?}))", e),
+        };
+        println!("poll {}: {}", i, last);
+        if let Poll::Ready(Ok(Some(s))) = r {
+            std::mem::forget(s);
+        }
+        if last != "Pending" {
+            break;
+        }
+    }
+    std::mem::forget(conn);
+    if last == "Pending" {
+        println!("REPRODUCED: the peer's GOAWAY was read while the grease stream could not be opened and was dropped: accept() never reports 'no more requests'");
+        1
+    } else {
+        0
+    }
 }
